@@ -82,6 +82,8 @@ func copyMeta(stored storage.Object) storage.Object {
 }
 
 func (ms *memstore) Get(baseUrl HttpBaseUrl, bucket string, filename string) (*storage.Object, []byte, error) {
+	verifPoint("store.enter", bucket, filename)
+	defer verifPoint("store.ret", bucket, filename)
 	f := ms.find(bucket, filename)
 	if f != nil {
 		meta := copyMeta(f.meta)
@@ -91,6 +93,8 @@ func (ms *memstore) Get(baseUrl HttpBaseUrl, bucket string, filename string) (*s
 }
 
 func (ms *memstore) GetMeta(baseUrl HttpBaseUrl, bucket string, filename string) (*storage.Object, error) {
+	verifPoint("store.enter", bucket, filename)
+	defer verifPoint("store.ret", bucket, filename)
 	f := ms.find(bucket, filename)
 	if f != nil {
 		meta := copyMeta(f.meta)
